@@ -260,6 +260,8 @@ def subsets_for(rng, n):
     perm = rng.permutation(n)
     uns = rng.permutation(idx)
     return [("all", slice(None, None, None), np.arange(n)), ("slice", slice(1, n, 2), np.arange(n)[1:n:2]), ("mask", mask, idx), ("indices", idx, idx),
+            ("mask as a list of bools", mask.tolist(), idx), ("indices as a list", idx.tolist(), idx),          # (a tuple is a multi-axis index for numpy, not a subset)
+            ("indices uint8", idx.astype(np.uint8) if n <= 256 else idx.astype(np.uint16), idx),
             ("all-permuted", perm, perm), ("all-reversed", np.arange(n)[::-1].copy(), np.arange(n)[::-1].copy()), ("indices-unsorted", uns, uns),
             ("reversed-slice", slice(None, None, -1), np.arange(n)[::-1])]
 
@@ -572,6 +574,26 @@ def run(ctx):
     allp = np.concatenate([np.array(special), pts])
     lines1 = allp[:, 0:2, :] / G; lines2 = allp[:, 2:4, :] / G
     got = [bool(pl.line_intersection(lines1[i:i + 1], lines2[i:i + 1])[0, 0]) for i in range(len(allp))]
+    # the same segments with integer coordinates (scaled by G: the verdict does not depend on the scale), as integer arrays, both arguments and one of them
+    ints = np.asarray(allp, dtype=np.int64)
+    for i in range(len(allp)):
+        for lab, a1, a2 in (("int64 / int64", ints[i:i + 1, 0:2, :], ints[i:i + 1, 2:4, :]), ("int32 / float", ints[i:i + 1, 0:2, :].astype(np.int32), ints[i:i + 1, 2:4, :].astype(float))):
+            try:
+                gi = bool(pl.line_intersection(a1, a2)[0, 0])
+            except Exception as ex:
+                ctx.impl_violation(f"line_intersection raised {type(ex).__name__}: {ex} for {lab} segment arrays", dict(case=f"pair#{i}", pair=allp[i].tolist(), dtype=lab)); break
+            if gi != got[i]:
+                s1_, e1_, s2_, e2_ = [tuple(Fraction(int(x)) for x in allp[i][k]) for k in range(4)]
+                d1_ = (e1_[0] - s1_[0], e1_[1] - s1_[1]); d2_ = (e2_[0] - s2_[0], e2_[1] - s2_[1]); den_ = d1_[0] * d2_[1] - d1_[1] * d2_[0]
+                if den_ != 0:
+                    a_ = ((s2_[0] - s1_[0]) * d2_[1] - (s2_[1] - s1_[1]) * d2_[0]) / den_; b_ = ((s2_[0] - s1_[0]) * d1_[1] - (s2_[1] - s1_[1]) * d1_[0]) / den_
+                    if min(abs(a_), abs(1 - a_), abs(b_), abs(1 - b_)) > Fraction(1, 10 ** 9):
+                        ctx.impl_violation(f"line_intersection gives {gi} for a segment pair with integer coordinates passed as {lab} arrays and {got[i]} for the same pair as floats (scaled by 1/{G})",
+                                           dict(case=f"pair#{i}", pair=allp[i].tolist(), dtype=lab)); break
+        else:
+            continue
+        break
+    ctx.count("intersection_pairs_as_integer_arrays", len(allp))
     o = core.Driver().run([dict(op="intersect", pairs=allp.tolist())])[0]
     for i, (g, m) in enumerate(zip(got, o["hit"])):
         if m is None:
